@@ -22,7 +22,7 @@ SetPath(Ps, k, P) == [Ps EXCEPT ![k] = P]
 InsertAfter(P, i, v) == SubSeq(P, 1, i) \o <<v>> \o SubSeq(P, i + 1, Len(P))
 MapPaths(Ps, F(_)) == [k \in 1..Len(Ps) |-> [i \in 1..Len(Ps[k]) |-> F(Ps[k][i])]]
 
-Geo(g) == g[1] \in {"tr", "tp", "mx", "sc"}
+Geo(g) == g[1] \in {"tr", "tp", "mx", "sc", "emb"}     \* "emb": the whole input under a big affine embedding x -> m x + T (harness/common.hpp emb_table), lattice level unchanged
 Flips(g) == g[1] \in {"rev", "tp", "mx"}
 Swaps(g) == g[1] = "swap"
 
@@ -69,12 +69,13 @@ TRel ==
          sw == Parity(gs, Swaps)
          BCfg(c) == <<c[1], IF flip THEN MirrorFR(c[2]) ELSE c[2], c[3], c[4]>>
          judged == {c \in DOMAIN exs : base.cs.gp /\ c[1] # 0 /\ (~sw \/ c[1] \in {1, 2, 4}) /\ BCfg(c) \in DOMAIN base.exs
-                                       /\ outs[exs[c]].lat /\ base.outs[base.exs[BCfg(c)]].lat}
+                                       /\ (geo \/ (outs[exs[c]].lat /\ base.outs[base.exs[BCfg(c)]].lat))}
          badExact == {c \in judged : ~SameRings(outs[exs[c]].paths, base.outs[base.exs[BCfg(c)]].paths)}
          badCover == {c \in judged : \E i \in 1..Len(cs.pts) : base.cs.clearT[i] /\ outs[exs[c]].cover[i] # base.outs[base.exs[BCfg(c)]].cover[i]}
      IN /\ Chk(img.s = cs.subj /\ img.c = cs.clip, "HARNESS", "transformed_input_is_not_the_generators_image", Len(gs))
         /\ Chk(Len(cs.pts) = Len(base.cs.pts) /\ \A i \in 1..Len(cs.pts) : cs.pts[i] = MapAll(gs, 1, base.cs.pts[i]), "HARNESS", "sample_points_not_mapped", 0)
-        /\ Chk(judged # {} \/ ~base.cs.gp, "HARNESS", "relation_vacuous", 0)
+        /\ Chk(judged # {} \/ ~base.cs.gp \/ \E i \in 1..Len(gs) : gs[i][1] = "emb", "HARNESS", "relation_vacuous", 0)
+        /\ Chk((\E i \in 1..Len(gs) : gs[i][1] = "emb") => (Len(gs) = 1 /\ cs.emb = gs[1][2]), "HARNESS", "embedding_not_applied", 0)
         /\ IF geo THEN Chk(badCover = {}, "C13", "transformation_changes_region", IF badCover = {} THEN <<>> ELSE CHOOSE c \in badCover : TRUE)
                   ELSE Chk(badExact = {}, "C13", "representation_changes_paths", IF badExact = {} THEN <<>> ELSE CHOOSE c \in badExact : TRUE)
 
